@@ -45,6 +45,7 @@ structure Mon where
   tx : List (String × Bytes × Nat × Nat) := []      -- (server, packet, time of last transmission, transmissions so far)
   now : Nat := 0
   udp : Bool := false
+  srvPrev : List (String × Nat × Nat) := []          -- per server: (unanswered count, status-server mode) as last seen
   queue : List (Nat × QEnt) := []    -- mirror of the reply queues, oldest first
   rxKnown : List (Bytes × Bytes × Bool) := []   -- reference answers of the C library's regexec (rxeval ops)
 
@@ -281,7 +282,19 @@ def frameOk (m : Mon) (cc : World.CliConf) (sc : World.SrvConf) (inp out : Bytes
   let f := fun (p : UInt8 × Bytes) => !touchedReq m cc sc p.1
   (attrsOf out).filter f == (attrsOf inp).filter f
 
+/-- (server, unanswered count, status-server mode) from the digest -/
+def digestLost (out : String) : List (String × Nat × Nat) :=
+  (sections out).filterMap fun sec =>
+    if sec.startsWith "S:" then
+      match (sec.drop 2).toString.splitOn " " with
+      | name :: rest =>
+        let get (k : String) : Nat := ((rest.find? (·.startsWith (k ++ "="))).bind fun t => (t.drop (k.length + 1)).toString.toNat?).getD 0
+        some (name, get "lost", get "ss")
+      | _ => none
+    else none
+
 def resync (m : Mon) (out : String) : Mon :=
+  let m := { m with srvPrev := if (digestLost out).isEmpty then m.srvPrev else digestLost out }
   let sl := digestSlots out
   { m with qlen := digestQlens out, slots := sl,
            fwds := m.fwds.filter fun f => (sl.find? (·.1 = f.srv)).any fun s => s.2.any (·.1 = f.slot) }
@@ -365,7 +378,21 @@ def monOp1 (m : Mon) (op : String) (args : List String) (impl : List String) (tr
         else if sends.any fun (_, b) => !requestOk H sc.secret b then "bad C06:transmitted-request-malformed-or-unauthenticated"
         else if sends.any fun (_, b) => codeOf b != 12 && !(m.fwds.any fun f => f.srv = name && f.pkt == b) then
           "bad C12:transmitted-something-never-queued"
-        else "ok"
+        else
+          -- abandoned in this pass = occupied before, gone now; what that does to the unanswered count
+          let before := ((m.slots.find? (·.1 = name)).map (·.2)).getD []
+          let after := (((digestSlots out).find? (·.1 = name)).map (·.2)).getD []
+          let gone := before.filter fun (i, _) => !(after.any (·.1 = i))
+          let ordinary := (gone.filter fun (i, _) => m.fwds.any fun f => f.srv = name && f.slot = i).length
+          let probes := gone.length - ordinary
+          match m.srvPrev.find? (·.1 = name), (digestLost out).find? (·.1 = name) with
+          | some (_, lost0, ss0), some (_, lost1, _) =>
+            -- probes may also vanish because a re-established connection discards them: only ordinary requests are judged
+            if ordinary = 0 then "ok"
+            else if (ss0 = 0 || ss0 = 3) && lost1 < min 16 (lost0 + ordinary) then
+              s!"bad C12:unanswered-count-{lost1}-after-abandoning-{ordinary}-requests-from-{lost0}-with-status-server-mode-{ss0}"
+            else "ok"
+          | _, _ => "ok"
       (resync m out, verdict)
   | "reply", [name, pkt] =>
     match srvConfOf m name, ofHex pkt with
